@@ -93,6 +93,9 @@ func gen(g *kernel.Rng, seed uint64, tier string) *kernel.Plan {
 	default:
 		p.Variant = "errors"
 		n := g.Range(0, 9)
+		if g.Bool(0.25) {
+			n = g.Range(10, 120) // "through any number of wrapping layers"
+		}
 		for i := 0; i < n; i++ {
 			p.Ops = append(p.Ops, kernel.Op{K: []string{"WithStack", "WithMessage", "Wrap", "Wrapf", "Foreign"}[g.Pick(3, 3, 3, 3, 2)], S: []string{fmt.Sprintf("layer %d %s", i, []string{"", "a: b", "%v", "é"}[g.Intn(4)])}})
 		}
